@@ -675,6 +675,7 @@ def _real(case, proj, seed, res):
         if bo[0] == "ok":
             try:
                 faithful(case, proj, cfg, jobs, bo[1], rng, res)
+                upgrade_probe(case, sorted(alljobsteps, key=jmod_vid), res)
             except Exception as e:
                 import traceback
                 tb = traceback.extract_tb(e.__traceback__)
@@ -872,6 +873,40 @@ def unplace(x):
     return x
 
 
+def upgrade_probe(case, live_steps, res):
+    """A specification that first holds a package as a mere dependency and then as a built package (what a job
+    building a package together with one of its dependencies needs): the partial entry has to be upgraded."""
+    from bob.cmds.jenkins.intermediate import PartialIR
+    for x in live_steps:
+        deps = [d for d in x.getAllDepSteps() + x.getPackage().getBuildStep().getAllDepSteps()
+                if d.isValid() and d.isPackageStep()]
+        if not deps:
+            continue
+        y = deps[0]
+        try:
+            ir = PartialIR()
+            ir.add(x)
+            ir.add(y)
+            ir2 = PartialIR.fromData(json.loads(json.dumps(ir.toData(), sort_keys=True)))
+            got = {jmod_vid(r): (r.partial, r.getPackage().getBuildStep().getMainScript(), r.getMainScript()) for r in ir2.getRoots()}
+        except Exception as e:
+            import traceback
+            tb = [t for t in traceback.extract_tb(e.__traceback__) if "/pym/bob/" in t.filename]
+            if not tb:
+                raise
+            res["viol"].append(("spec-upgrade-path:%s" % type(e).__name__,
+                                {"error": "%s: %s" % (type(e).__name__, e), "at": "%s:%d %s" % (os.path.basename(tb[-1].filename), tb[-1].lineno, tb[-1].name),
+                                 "built": x.getPackage().getName(), "then_built": y.getPackage().getName(), "case": case.brief(),
+                                 "level": "job specification"}))
+            return
+        want = {jmod_vid(r): (False, r.getPackage().getBuildStep().getMainScript(), r.getMainScript()) for r in (x, y)}
+        res["fields_compared"] += 1
+        if got != want:
+            res["viol"].append(("spec-upgrade-path:differs", {"live": repr(want)[:600], "job_spec": repr(got)[:600],
+                                                              "case": case.brief(), "level": "job specification"}))
+        return
+
+
 def jmod_vid(step):
     vid = step.getVariantId()
     sb = step.getSandbox()
@@ -974,8 +1009,10 @@ def main():
     if not quick:
         runs.append(("A2", "JenkinsJobs_thorough.cfg", None, False))
     runs += [("reach:" + inv, "JenkinsJobs_reach_%s.cfg" % inv, None, False) for inv in REACH]
-    # package names that equal a counting suffix name ("a-1"): the model itself shows the name collision
+    # package names that equal a counting suffix name ("a-1", "a-2"): the numbering has to skip taken names
+    # (fix cd7a0eb); the numbering without that check is kept as a weakening that must violate UniqueNames
     runs.append(("suffix", "JenkinsJobs_suffix.cfg", None, False))
+    runs.append(("weak", "JenkinsJobs_weak_NumberNoCollisionCheck.cfg", None, False))
     gens = [("JenkinsJobs_gen.cfg", None), ("JenkinsJobs_gen_names.cfg" if quick else "JenkinsJobs_gen_names_thorough.cfg", None),
             ("JenkinsJobs_gen_topo5.cfg" if quick else "JenkinsJobs_gen_topo5_thorough.cfg", None),
             ("JenkinsJobs_gen_topo6.cfg", None), ("JenkinsJobs_gen_suffix.cfg", None),
@@ -1037,9 +1074,12 @@ def main():
         if results["reach:" + inv].violated != inv:
             raise tlc.TlcError("vacuity: %s not reachable" % inv)
     r3 = results["suffix"]
-    rep.add_tlc(r3, "JenkinsJobs_suffix.cfg (package named like a numbered job)")
+    rep.add_tlc(r3, "JenkinsJobs_suffix.cfg (packages named like numbered jobs)")
     if r3.violated:
         rep.violation("model:%s:suffix-universe" % r3.violated, {"cex": r3.cex[-2:]})
+    if results["weak"].violated != "UniqueNames":
+        raise tlc.TlcError("weakening NumberNoCollisionCheck is not rejected by UniqueNames (%s)" % results["weak"].violated)
+    rep.extra["weakening_rejected"] = {"JenkinsJobs_weak_NumberNoCollisionCheck.cfg": "UniqueNames"}
 
     cases, seen, suffix_idx, sfx = [], set(), set(), []
     for cfg, sim in gens:
@@ -1060,7 +1100,8 @@ def main():
                 seen.add(k)
                 if "suffix" in cfg:
                     suffix_idx.add(len(cases))
-                    if not c.m_names_unique:
+                    # the numbering had to skip a taken name: a numbered job next to a package called like one
+                    if any(re.search(r"-\d$", nm) for nm in c.m_jobs) and any(re.search(r"-\d$", nm) for nm in d["nm"]):
                         sfx.append(len(cases))
                 cases.append(d)
                 new += 1
@@ -1105,7 +1146,7 @@ def main():
     chosen = set()
     while len(chosen) < nreal:
         chosen.update(rng.choices(main_idx, weights, k=nreal - len(chosen)))
-    # plus cases of the suffix universe where the model predicts a duplicate name (the real project decides)
+    # plus cases of the suffix universe where numbered jobs and packages named like numbered jobs meet
     rng.shuffle(sfx)
     tasks = [(i, cases[i], a.seed, a.keep) for i in sorted(chosen)] + [(i, cases[i], a.seed, a.keep) for i in sfx[:3 if quick else 12]]
     realized, skipped = 0, []
